@@ -716,7 +716,11 @@ func runDW(maxW, nlines int, rich bool) string {
 var exAlphabet = []string{"a", "b", " ", "-", "\n", "世", "é", "⁠", "\t"}
 
 var randAlphabet = []string{"a", "b", "c", "z", " ", " ", " ", "-", "\n", "世", "界", "é", "⁠", "\t", "é", "🔥",
-	"👩‍🚀", "​", ".", ",", "!", "。", "」", "(", "/", " ", "­", "1", "2", "%", "$"}
+	"👩‍🚀", "​", ".", ",", "!", "。", "」", "(", "/", " ", "­", "1", "2", "%", "$", "\r\n", "\u2028"}
+
+// crlfAlphabet: Windows line endings and the other hard breaks (one grapheme cluster each), for a small
+// exhaustive family of its own
+var crlfAlphabet = []string{"a", " ", "\r\n", "世", "-", "\u2028", "\r"}
 
 func (st *state) emitText(s string, wlo, whi int, split int, styles []int) {
 	r := st.r
@@ -1139,7 +1143,7 @@ func run(r *hx.Run) error {
 		nSplit = 30000
 	}
 	heads := []string{"（", "世", "「", "🔥", "é", "(", "“", "$", "界。", "x⁠"}
-	seps := []string{" ", "\n", " \n", "\n ", "  ", "-", "\t"}
+	seps := []string{" ", "\n", " \n", "\n ", "  ", "-", "\t", "\r\n", " \r\n"}
 	for i := 0; i < nSplit; i++ {
 		var sb strings.Builder
 		sb.WriteString(gen.Pick(rng, []string{"", "", "x ", "ab ", "\n", "世 "}))
@@ -1158,6 +1162,32 @@ func run(r *hx.Run) error {
 		r.Count("split-family")
 	}
 	r.Note("t-split-family", time.Since(t0).String())
+	t0 = time.Now()
+	// 2c. hard breaks other than "\n" (CRLF, CR, U+2028): all strings up to length 4 over crlfAlphabet
+	var recC func(prefix []int, n int)
+	recC = func(prefix []int, n int) {
+		if len(prefix) > 0 {
+			var sb strings.Builder
+			has := false
+			for _, i := range prefix {
+				sb.WriteString(crlfAlphabet[i])
+				has = has || i == 2 || i >= 5
+			}
+			if has {
+				st.emitText(sb.String(), 0, 4, 0, []int{1})
+				st.emitHard(sb.String())
+				r.Count("crlf-family")
+			}
+		}
+		if n == 0 {
+			return
+		}
+		for i := range crlfAlphabet {
+			recC(append(prefix, i), n-1)
+		}
+	}
+	recC(nil, 4)
+	r.Note("t-crlf-family", time.Since(t0).String())
 	t0 = time.Now()
 	// 3. overflow regime (F45): an unbroken word whose width reaches 2^16
 	over := []int{65536}
